@@ -64,7 +64,7 @@ func vCmapRun(styles []int) {
 // three goroutines on one key, calls correctly paired, without the delete-and-release variants: each is a writer
 // (Lock/Unlock) or a reader (RLock/RUnlock)
 //
-//verif:harness prop=C13 name=cmap_mutex_rw threads=4 sched=delay preempt=3 t_preempt=5 unwind=8 witness=lenient
+//verif:harness prop=C13 name=cmap_mutex_rw threads=4 sched=delay preempt=3 t_preempt=4 unwind=8 witness=lenient
 func VerifCmapMutexRW() {
 	styles := []int{0, 0, 0}
 	for i := range styles {
@@ -77,7 +77,7 @@ func VerifCmapMutexRW() {
 // the delete-and-release variants: the first goroutine releases with DeleteUnlock / DeleteRUnlock while the others
 // use any of the four styles
 //
-//verif:harness prop=C13 name=cmap_mutex_delete threads=4 sched=delay preempt=3 t_preempt=5 unwind=8 witness=lenient
+//verif:harness prop=C13 name=cmap_mutex_delete threads=4 sched=delay preempt=3 t_preempt=4 unwind=8 witness=lenient
 func VerifCmapMutexDelete() {
 	styles := []int{1 + 2*zzverif.Choose("deleter_is_reader", 2), 0, 0}
 	n := 2
